@@ -6,6 +6,7 @@ import SxVerif.Model.Proc
 import SxVerif.Spec.Frame
 import SxVerif.Spec.Faithful
 import SxVerif.Proofs.Frame
+import SxVerif.Generated.Wiring
 
 namespace SxVerif.C06
 open SxVerif.Frame SxVerif.Proc SxVerif.Spec.Frame
@@ -34,6 +35,17 @@ theorem C06_history (scan : Scan) (st : State) (fs : List Bytes) :
 theorem C06_terminates (registered : List LT) (first : LT) (st : State) (d : Bytes) (extra : Nat) :
     decodeLoop registered (d.length + 1 + extra) first st d [] = decodeLoop registered (d.length + 1) first st d [] :=
   Proofs.Frame.decodeLoop_fuel registered first st d extra
+
+/-- (T) "never crash" below the processor: the frames come out of a memory-mapped ring that `Close` unmaps while
+    the receiver goroutine is still reading (it outlives the engine run that started it).  `afpacket.Source` takes
+    one mutex in `ReadPacketData` and `Close`, answers io.EOF once closed and hands out a copy of the frame, so
+    whatever arrives — and whenever — the processor is given bytes it may read.  (Dynamic side: the reply-flood
+    cases of component `e2e`.) -/
+theorem capture_source_safe : SxVerif.Generated.readSafeAgainstClose = true := by decide
+
+/-- (T) a frame the kernel delivered with its VLAN tag stripped (the tag travels beside the frame, the bytes look
+    like an untagged answer) is not processed at all: no phantom record for a host of another VLAN -/
+theorem vlan_tagged_skipped : SxVerif.Generated.dropsVlanTagged = true := by decide
 
 -- non-vacuity and the two-frame history the property text mentions (tests, labelled as such)
 private def synAck : Bytes :=
